@@ -73,6 +73,12 @@ def _selfcheck(pecc, hd, p, a, b, n, g, toy_hash, toy_hmac):
         ok = ok and pecc.S256Field(1).prime == p
         one = pecc.PrivateKey(1).point
         ok = ok and one.x is not None and one.x.prime == p
+        # the library must agree WITH ITSELF on the toy group: k*G against repeated G + G + ... (a table or cache filled under other
+        # parameters shows here; a wrong group law does not, both sides would share it)
+        acc = G
+        for k_ in (2, 3, 4, 5):
+            acc = acc + G
+            ok = ok and (k_ * G) == acc
         if toy_hash:
             ok = ok and pecc.hash_challenge(b"\x01\x02") == toy_h(3, b"\x01\x02")
         if toy_hmac:
